@@ -12,6 +12,7 @@ import (
 	"golang.org/x/perf/benchfmt"
 	"golang.org/x/perf/benchproc"
 	"pgregory.net/rapid"
+	"verif/harness/lib/refbench"
 	"verif/harness/lib/refexpr"
 	"verif/harness/lib/vcase"
 )
@@ -58,7 +59,7 @@ func build(c Case) (*benchfmt.Result, *refexpr.Result) {
 	var sb strings.Builder
 	sb.WriteString("BenchmarkX 1")
 	for i, u := range c.Units {
-		fmt.Fprintf(&sb, " %d %s", i+1, u)
+		fmt.Fprintf(&sb, " %d %s", (i+1)%3, u) // (every third measurement reads 0: still a measurement in its unit)
 	}
 	rd := benchfmt.NewReader(strings.NewReader(sb.String()+"\n"), "x")
 	for rd.Scan() {
@@ -66,8 +67,11 @@ func build(c Case) (*benchfmt.Result, *refexpr.Result) {
 			res.Values = append([]benchfmt.Value(nil), r.Values...)
 		}
 	}
-	for _, v := range res.Values {
-		ref.Meas = append(ref.Meas, refexpr.Meas{Unit: v.Unit, OrigUnit: v.OrigUnit})
+	// (the reference names of a measurement come from the written unit, not from what the
+	// reader made of it)
+	for i, u := range c.Units {
+		mv := refbench.MakeValue(float64((i+1)%3), u)
+		ref.Meas = append(ref.Meas, refexpr.Meas{Unit: mv.Unit, OrigUnit: mv.OrigUnit})
 	}
 	return res, ref
 }
